@@ -33,7 +33,6 @@ CLAIM = dict(
 
 TX = ["global", "NetMsgType::TX"]
 MAPM = "PeerManagerImpl::MakeAndPushMessage"
-PRIV = "broadcast_method == node::TxBroadcast::NO_MEMPOOL_PRIVATE_BROADCAST"
 
 
 def peel(e):
@@ -140,7 +139,7 @@ def send_sites(ctx, P, cg):
             cex = F.counterexample(fb, F.parse("FILTERED && HAVEDATA"))
             ctx.ob("TXmsg/%s/guard@L%s" % (name, s.line), "MPT", "block transactions are pushed only for a filtered-block request of a block whose data is stored", cex is None, s.where,
                    None if cex is None else {"counterexample": cex})
-        else:
+        elif g.q == "PeerManagerImpl::ProcessMessage":
             reg = handler_region(g, "GETDATA")
             inreg = reg["l"] <= s.line <= max(x2.get("l") or 0 for x2 in stmts(reg["t"]))
             txl = [r[1] for r in roots if r[0] == "local"]
